@@ -419,6 +419,19 @@ func c13Program(r *RNG) (GoProg, map[string]bool) {
 	w("type RuneS []rune\n\ntype Int32S []int32\n\ntype RuneT rune\n\n")
 	w("func digits(s string) int {\n\tn := 0\n\tfor i := 0; i < len(s); i++ {\n\t\tif s[i]-'0' <= 9 {\n\t\t\tn++\n\t\t}\n\t}\n\treturn n\n}\n\n")
 	w("func main() {\n")
+	// an interpreted and a raw literal with the same text between the quotes are different strings when the text
+	// holds an escape; both spellings in one program, in both orders, and used again afterwards
+	for _, in := range []string{Pick(r, []string{`x\ty`, `\n`, `\x41b`, `a\\b`, `\u00e9`, `q\"`}), `plain`} {
+		if strings.HasSuffix(in, `\"`) { // (a raw string cannot end that way next to the closing quote: keep it inside)
+			in += "z"
+		}
+		if r.Bool() {
+			w("if true {\n\ta := \"%s\"\n\tb := `%s`\n\tprintln(\"lit\", len(a), len(b), a == b, a, b)\n\tc := \"%s\"\n\tprintln(len(c), c == a, c == b)\n}\n", in, in, in)
+		} else {
+			w("if true {\n\tb := `%s`\n\ta := \"%s\"\n\tprintln(\"lit\", len(a), len(b), a == b, a, b)\n\td := `%s`\n\tprintln(len(d), d == a, d == b)\n}\n", in, in, in)
+		}
+	}
+	feat["raw-and-interpreted-same-text"] = true
 	names := []string{"s", "t", "u"}
 	vals := map[string]string{}
 	for _, n := range names {
